@@ -13,7 +13,7 @@ for d in $DIRS; do
   git -C $WT checkout -q -- . ; git -C $WT clean -fdq
   if ! git -C $WT apply $ROOT/$d/patch.diff 2>/dev/null; then echo "$name: PATCH DOES NOT APPLY"; continue; fi
   t0=$(date +%s)
-  out=$(VERIF_REPO=$WT VERIF_SCRATCH=$SCR ./check $ID $TIER 2>&1); rc=$?
+  out=$(VERIF_REPO=$WT VERIF_SCRATCH=$SCR VERIF_SHRINK_EVALS=${VERIF_SHRINK_EVALS:-1} ./check $ID $TIER 2>&1); rc=$?
   sigs=$(echo "$out" | grep "signature:" | sed 's/ *signature: //' | head -3 | tr '\n' ';')
   echo "$name: rc=$rc $(( $(date +%s) - t0 ))s $sigs"
   [ $rc -ge 2 ] && echo "$out" | tail -5
